@@ -5,6 +5,7 @@ package palias
 
 import (
 	"context"
+	"errors"
 	"fmt"
 	"os"
 	"reflect"
@@ -74,7 +75,12 @@ type decorator struct {
 	// allowClassA permits a leaf with a source-specific primary tag, a generic
 	// dialsalias tag and no source-specific alias tag (one case in six).
 	allowClassA bool
+	// names counts the expanded leaves produced so far; past nameBudget no
+	// further alias tags are handed out (the cost of a case is linear in it).
+	names int
 }
+
+const nameBudget = 96
 
 func (d *decorator) fresh(n int) []string {
 	out := make([]string, 0, n)
@@ -155,7 +161,16 @@ func (d *decorator) decorate(fs []shape.Field, aliasedAbove int) {
 				aliasPct = 0
 			}
 		}
+		if d.names > nameBudget {
+			aliasPct = 0
+		}
 		aliased := rapid.IntRange(0, 99).Draw(d.t, "has_alias") < aliasPct
+		if f.Kind == "leaf" {
+			d.names += 1 << aliasedAbove
+			if aliased {
+				d.names += 1 << aliasedAbove
+			}
+		}
 		if aliased {
 			tags = append(tags, fmt.Sprintf(`dialsalias:%q`, d.freshTag()))
 		}
@@ -459,6 +474,19 @@ func execute(src srcKind, T, pt reflect.Type, sup []supplied) (val reflect.Value
 	return val, err, nil
 }
 
+// rootCause unwraps an error to its innermost cause: the wrappers added on
+// the way up quote the names of enclosing fields, which must not count as
+// "naming the field".
+func rootCause(err error) string {
+	for {
+		next := errors.Unwrap(err)
+		if next == nil {
+			return err.Error()
+		}
+		err = next
+	}
+}
+
 func clip(s string, n int) string {
 	if len(s) > n {
 		return s[:n] + "..."
@@ -540,11 +568,11 @@ func runCase(src srcKind) func(Case) vrt.Verdict {
 			}
 			named := false
 			for _, f := range ev.both {
-				if strings.Contains(gerr.Error(), strconv.Quote(f.name)) {
+				if strings.Contains(rootCause(gerr), strconv.Quote(f.name)) {
 					named = true
 				}
 			}
-			if p, ok := classAKey(gerr.Error()); !named && ok && strings.Contains(gerr.Error(), "both alias and original set") {
+			if p, ok := classAKey(rootCause(gerr)); !named && ok && strings.Contains(gerr.Error(), "both alias and original set") {
 				return vrt.KeyedViolationf("generic-alias-inherits-source-tag", "%s: field %s has a %s tag and a dialsalias tag; supplying it under its only %s name is rejected: %v; supplied: %s", src.name, p, src.spTag, src.name, gerr, describe())
 			}
 			if !named {
@@ -552,7 +580,7 @@ func runCase(src srcKind) func(Case) vrt.Verdict {
 			}
 		} else {
 			if gerr != nil {
-				if p, ok := classAKey(gerr.Error()); ok && strings.Contains(gerr.Error(), "both alias and original set") {
+				if p, ok := classAKey(rootCause(gerr)); ok && strings.Contains(gerr.Error(), "both alias and original set") {
 					return vrt.KeyedViolationf("generic-alias-inherits-source-tag", "%s: field %s has a %s tag and a dialsalias tag; supplying it under its only %s name is rejected: %v; supplied: %s", src.name, p, src.spTag, src.name, gerr, describe())
 				}
 				return vrt.KeyedViolationf("spurious-error", "%s: no field is supplied under both names, but the source failed: %v; supplied: %s", src.name, gerr, describe())
@@ -660,7 +688,7 @@ var assumptions = []string{
 	"flag sources get explicit FlagSets via NewSetWithArgs (never flag.CommandLine / os.Args) and a zero-valued template",
 	"source-specific tags are generated only on leaf fields that are not below an aliased struct field: their names are absolute, so below an aliased struct both copies would share one name and 'which name was used' is undefined",
 	"untagged fields are addressed by the documented default of each format (Go field name for JSON/Cue/TOML, lower-cased field name for YAML)",
-	"'naming the field' = the error text contains the Go field name in quotes (what AliasMangler.Unmangle prints)",
+	"'naming the field' = the innermost error of the returned chain (errors.Unwrap to the end) contains the Go field name in quotes, which is what AliasMangler.Unmangle prints; names of enclosing fields quoted by outer wrappers do not count",
 }
 
 func check(t *testing.T, src string) {
